@@ -7,6 +7,8 @@
  *   sel k                      make buffer k current
  *   copy dt dl st sl n c       tickit_renderbuffer_copyrect(cur, {dt,dl,n,c}, {st,sl,n,c})
  *   move dt dl st sl n c       tickit_renderbuffer_moverect(cur, {dt,dl,n,c}, {st,sl,n,c})
+ *   copy dt dl st sl n c dn dc   the same with the destination rectangle {dt,dl,dn,dc}: only its position is
+ *   move dt dl st sl n c dn dc   meaningful (the size is the source's), so dn x dc may be anything (1x1, 0x0, larger)
  *   blit k                     tickit_renderbuffer_blit(cur, buffer k)      (k may be the current buffer)
  * Observation: `r=<result or -> <dump of the current buffer>`; for `blit k` followed by ` | <dump of buffer k>`.
  * A source rectangle with positive extent that is not inside the buffer makes the library read outside its
@@ -135,8 +137,8 @@ static void engine_op(int argc, char **argv)
     cur = A(1);
     obs("r=-"); dump(); return;
   }
-  if((strcmp(op, "copy") == 0 || strcmp(op, "move") == 0) && argc == 7) {
-    TickitRect dest = { .top = A(1), .left = A(2), .lines = A(5), .cols = A(6) };
+  if((strcmp(op, "copy") == 0 || strcmp(op, "move") == 0) && (argc == 7 || argc == 9)) {
+    TickitRect dest = { .top = A(1), .left = A(2), .lines = argc == 9 ? A(7) : A(5), .cols = argc == 9 ? A(8) : A(6) };
     TickitRect src  = { .top = A(3), .left = A(4), .lines = A(5), .cols = A(6) };
     if(!src_ok(rb, src.top, src.left, src.lines, src.cols)) { obs("bad-op"); return; }
     if(op[0] == 'c') tickit_renderbuffer_copyrect(rb, &dest, &src);
